@@ -1114,6 +1114,13 @@ def skymask(invvar, andmask, ormask=None, ngrow=2):
     redmonster = sdss_flagval('SPPIXMASK', 'REDMONSTER')
     # brightsky = sdss_flagval('SPPIXMASK', 'BRIGHTSKY')
     if ormask is not None:
+        #
+        # The flag values are numpy.uint64, which cannot be combined with the
+        # signed integer masks stored in spPlate files.  Reinterpret the mask
+        # as unsigned of the same width first, so that no sign bits are
+        # smeared into the upper bits.
+        #
+        ormask = ormask.astype(ormask.dtype.str.replace('i', 'u')).astype(np.uint64)
         badmask = badmask | ((ormask & badskychi) != 0)
         badmask = badmask | ((ormask & redmonster) != 0)
         # badmask = badmask | ((andmask & brightsky) != 0)
